@@ -11,7 +11,12 @@ from comb_spec_searcher.strategies.rule import EquivalencePathRule
 from upword import MODES, PARAM_SETS, PW, SW, Expand, Peel, Reduce, Rot, SepSplit, SepUnion, Swap, true_terms
 
 
+EXTRA = None  # "peelcut": the dedicated universe of one strategy class instantiated with several settings (set by the caller of collect)
+
+
 def strategies(mode):
+    if EXTRA == "peelcut" and not mode.startswith("gram:"):
+        return [Peel(mode), Peel(mode, cut=1), Peel(mode, cut=2)]
     if mode.startswith("gram:"):  # U-gram: the table-driven strategies of that universe
         import ugram
 
@@ -224,7 +229,8 @@ def _worker(rnd, count, N):
                 if r.comb_class.is_empty():
                     continue
                 o = evaluate(name, r, N)
-                o["desc"] = {"class": c.to_jsonable(), "sw": isinstance(c, SW), "mode": mode, "strategy": type(s).__name__, "form": name}
+                o["desc"] = {"class": c.to_jsonable(), "sw": isinstance(c, SW), "mode": mode, "strategy": type(s).__name__, "form": name,
+                             "repr": repr(s), "extra": EXTRA}
                 o["mode"] = mode
                 o["strategy"] = type(s).__name__
                 o["nparams"] = len(c.params)
@@ -258,8 +264,14 @@ def replay_desc(desc, N=6):
         c = ugram.GL.from_dict(d)
     else:
         c = (SW if desc.get("sw") else PW).from_dict(d)
-    for s in strategies(desc["mode"]):
-        if type(s).__name__ == desc["strategy"]:
+    global EXTRA
+    saved, EXTRA = EXTRA, desc.get("extra")
+    try:
+        strats = strategies(desc["mode"])
+    finally:
+        EXTRA = saved
+    for s in strats:
+        if type(s).__name__ == desc["strategy"] and desc.get("repr", repr(s)) == repr(s):
             rule = s(c)
             for name, r in forms(rule):
                 if name == desc["form"]:
